@@ -8,6 +8,26 @@ use core::fmt;
 use core::mem::ManuallyDrop;
 use serde::{Deserialize, Deserializer, Serialize, Serializer};
 
+/// Renders `<prefix><id>` into a stack buffer and hands it to `Formatter::pad`, so that width, fill,
+/// alignment and precision of the caller's format specification act on the element the way they do
+/// for a string (no allocation).
+pub fn pad_id(f: &mut fmt::Formatter<'_>, prefix: u8, id: u64) -> fmt::Result {
+    let mut buf = [0u8; 24];
+    let mut n = buf.len();
+    let mut x = id;
+    loop {
+        n -= 1;
+        buf[n] = b'0' + (x % 10) as u8;
+        x /= 10;
+        if x == 0 {
+            break;
+        }
+    }
+    n -= 1;
+    buf[n] = prefix;
+    f.pad(core::str::from_utf8(&buf[n..]).unwrap_or("?"))
+}
+
 /// The shape filler: what else a payload object carries besides its identity.
 pub trait Fill: 'static {
     const HEAP: bool;
@@ -205,7 +225,7 @@ impl<F: Fill> fmt::Debug for SimKey<F> {
         if env::fmt_elem_fails() {
             return Err(fmt::Error);
         }
-        write!(f, "k{}", p.id)
+        pad_id(f, b'k', p.id)
     }
 }
 
@@ -216,7 +236,7 @@ impl<F: Fill> fmt::Display for SimKey<F> {
         if env::fmt_elem_fails() {
             return Err(fmt::Error);
         }
-        write!(f, "K{}", p.id)
+        pad_id(f, b'K', p.id)
     }
 }
 
@@ -312,7 +332,7 @@ impl<F: Fill> fmt::Debug for SimVal<F> {
         if env::fmt_elem_fails() {
             return Err(fmt::Error);
         }
-        write!(f, "v{}", p.id)
+        pad_id(f, b'v', p.id)
     }
 }
 
@@ -323,7 +343,7 @@ impl<F: Fill> fmt::Display for SimVal<F> {
         if env::fmt_elem_fails() {
             return Err(fmt::Error);
         }
-        write!(f, "V{}", p.id)
+        pad_id(f, b'V', p.id)
     }
 }
 
@@ -398,7 +418,7 @@ impl fmt::Debug for ZKey {
         if env::fmt_elem_fails() {
             return Err(fmt::Error);
         }
-        f.write_str("k0")
+        pad_id(f, b'k', 0)
     }
 }
 impl fmt::Display for ZKey {
@@ -407,7 +427,7 @@ impl fmt::Display for ZKey {
         if env::fmt_elem_fails() {
             return Err(fmt::Error);
         }
-        f.write_str("K0")
+        pad_id(f, b'K', 0)
     }
 }
 impl Serialize for ZKey {
@@ -476,7 +496,7 @@ impl fmt::Debug for ZVal {
         if env::fmt_elem_fails() {
             return Err(fmt::Error);
         }
-        f.write_str("v0")
+        pad_id(f, b'v', 0)
     }
 }
 impl fmt::Display for ZVal {
@@ -485,7 +505,7 @@ impl fmt::Display for ZVal {
         if env::fmt_elem_fails() {
             return Err(fmt::Error);
         }
-        f.write_str("V0")
+        pad_id(f, b'V', 0)
     }
 }
 impl Serialize for ZVal {
@@ -570,7 +590,7 @@ impl fmt::Debug for PKey {
         if env::fmt_elem_fails() {
             return Err(fmt::Error);
         }
-        write!(f, "k{}", p.id)
+        pad_id(f, b'k', p.id)
     }
 }
 impl fmt::Display for PKey {
@@ -580,7 +600,7 @@ impl fmt::Display for PKey {
         if env::fmt_elem_fails() {
             return Err(fmt::Error);
         }
-        write!(f, "K{}", p.id)
+        pad_id(f, b'K', p.id)
     }
 }
 impl Serialize for PKey {
@@ -645,7 +665,7 @@ impl fmt::Debug for PVal {
         if env::fmt_elem_fails() {
             return Err(fmt::Error);
         }
-        write!(f, "v{}", p.id)
+        pad_id(f, b'v', p.id)
     }
 }
 impl fmt::Display for PVal {
@@ -655,7 +675,7 @@ impl fmt::Display for PVal {
         if env::fmt_elem_fails() {
             return Err(fmt::Error);
         }
-        write!(f, "V{}", p.id)
+        pad_id(f, b'V', p.id)
     }
 }
 impl Serialize for PVal {
